@@ -569,6 +569,21 @@ class CaseWhen(Statement):
 #
 
 
+def string_expression(text) -> str:
+    # A VHDL string literal consists of graphic characters only and a
+    # quotation mark inside it is written twice. All other characters
+    # (line breaks, tabs, ...) are concatenated as character'val(code).
+    parts = ['"']
+
+    for char in str(text):
+        if ord(char) < 32 or 127 <= ord(char) < 160:
+            parts.append(f"\" & character'val({ord(char)}) & \"")
+        else:
+            parts.append('""' if char == '"' else char)
+
+    return "".join([*parts, '"'])
+
+
 class Assert(Statement):
     def __init__(self, test: Expression, message):
         self._test = test
@@ -577,7 +592,7 @@ class Assert(Statement):
     def write(self, scope: VhdlScope) -> str:
         if self._message is None:
             return f"assert {self._test.write(scope)};"
-        return f'assert {self._test.write(scope)} report "{self._message}";'
+        return f"assert {self._test.write(scope)} report {string_expression(self._message)};"
 
 
 #
